@@ -12,7 +12,8 @@ TRUSTED = [
     "Lean 4.33 kernel (thorough tier: leanchecker re-check of the property module)",
     "axioms propext, Classical.choice, Quot.sound only (audited per theorem with #print axioms); no sorry/native_decide",
     "Mathlib v4.33 as a library of proved lemmas",
-    "hand-written Lean model SF/Model/*.lean, tied to /repo by the correspondence run of this check (differential, sampled)",
+    "hand-written Lean model SF/Model/*.lean, tied to /repo by the correspondence run of this check (differential, sampled) and, for 26 views, by the translator tie (below)",
+    "translator tools/rs2lean.py (its reading of the Rust subset the crate uses: &mut self as state passing, VecDeque/Vec as lists, usize as Nat with checked subtraction, unwrap/index/debug_assert as failing operations, the std functions of SF/GenPrelude.lean); the equality of its output with the model is NOT trusted: SF.GenEq.<View>.tie is kernel-checked on every run",
     "Rust harness (Dyn adapter, exact scalar Q with f64-bridged transcendental functions, panic capture, allocation meter)",
     "Lean compiler/runtime and libm for the executable Float/Rat instantiations of the model",
     "statements in SF/Props and specs in SF/Spec.lean as a faithful reading of properties.jsonl",
@@ -244,6 +245,18 @@ def jobs_C03(rng, tier):
             p1 = [big * x for x in gen.gen_stream(rng, rng.randint(0, 3 * n + 5), n)[1]]
             p2 = [big * x + 7 for x in gen.gen_stream(rng, rng.randint(1, 40), n)[1]]
             js.append(Relation("suffix", e, [p1 + suffix, p2 + suffix], dict(K=K)))
+            if rng.random() < 0.5:
+                # the shared suffix BEGINS with a plateau (at least a window of equal values) that one history enters from above
+                # and the other from below, or that starts one of them (wave-8 seed C03h: PFE took the sign of its last move from
+                # a latch that a repeated value leaves unchanged, so a flat window remembered a move older than the suffix)
+                c = F(rng.randint(2, 9))
+                plateau = [c] * (K + rng.randint(0, 2)) + [c + F(rng.randint(-3, 3), 2) for _ in range(rng.randint(0, 3))]
+                if nm == "myrsi" and len(set(plateau[-K:])) == 1:
+                    plateau[-1] += 1
+                up = [c - 1 - F(rng.randint(0, 4), 2) for _ in range(rng.randint(1, n + 2))]
+                down = [c + 1 + F(rng.randint(0, 4), 2) for _ in range(rng.randint(1, n + 2))]
+                q1, q2 = rng.choice([(up, down), (down, up), ([], up), (down, [])])
+                js.append(Relation("suffix", e, [q1 + plateau, q2 + plateau], dict(K=K)))
             fam, xs = stream_for(rng, e, 3 * n + 6)
             js += both_mode_corr(e, xs, n=n)[1:]
     js += long_suffix_jobs(rng, tier, C03_VIEWS + ["pfe"])
@@ -1954,6 +1967,14 @@ def search_phase(pid, seed, tier, focus, everything, known, budget_s):
     return None, first_corr, stats
 
 
+def tie_lost_final(tie, js):
+    """the views used by this check's jobs whose translator tie is broken or that the translator no longer understands"""
+    used = set()
+    for j in js:
+        used |= job_views(j)
+    return sorted(v for v in list(tie.get("broken", {})) + list(tie.get("untranslatable", {})) if set(core.TIE_VIEWS.get(v, [])) & used)
+
+
 def check_property(pid, tier, seed, do_lean=True, write_evidence=True):
     t0 = time.time()
     if pid not in GENERATORS:
@@ -1962,9 +1983,11 @@ def check_property(pid, tier, seed, do_lean=True, write_evidence=True):
     rng = random.Random(seed * 1009 + int(pid[1:]))
     proof_failures, corr_failures, oracle_failures, known_hits = [], [], [], []
     lean = dict(obligations=0, discharged=0, theorems=[], failures=[], checker_cmd="(skipped)")
+    tie = dict(skipped="--no-lean")
     if do_lean:
         lean = core.lean_obligations(pid, thorough=(tier == "thorough"))
         proof_failures = list(lean["failures"])
+        tie = core.translator_tie()
     build_error = None
     results = []
     try:
@@ -2096,6 +2119,13 @@ def check_property(pid, tier, seed, do_lean=True, write_evidence=True):
     search = None
     if build_error is None and not oracle_failures and not os.environ.get("VERIF_NO_SEARCH"):
         focus, everything, changed = core.source_focus()
+        # views whose translator tie no longer checks (the Rust text is no longer proved equal to the model): search them too
+        tie_names = {n for v in list(tie.get("broken", {})) + list(tie.get("untranslatable", {})) for n in core.TIE_VIEWS.get(v, [])}
+        used = set()
+        for j in js:
+            used |= job_views(j)
+        tie_lost = sorted(v for v in list(tie.get("broken", {})) + list(tie.get("untranslatable", {})) if set(core.TIE_VIEWS.get(v, [])) & used)
+        focus |= (tie_names & used)
         for j, f in corr_failures:
             focus |= {n for n in job_views(j) if n in gen.CATALOGUE or n in gen.TWO or n in gen.BINOPS or n == "tanh"}
         if focus or everything:
@@ -2111,6 +2141,8 @@ def check_property(pid, tier, seed, do_lean=True, write_evidence=True):
                 corr_failures.append(c1)
     for line in sorted(set(known_lines)):
         print(line)
+    for v in tie_lost_final(tie, js):
+        log("NOTE: %s: translator tie lost for %s (%s)" % (pid, v, (tie.get("broken", {}).get(v) or tie.get("untranslatable", {}).get(v) or "")[:160]))
     violation = None
     if oracle_failures:
         j, f = oracle_failures[0]
@@ -2124,7 +2156,7 @@ def check_property(pid, tier, seed, do_lean=True, write_evidence=True):
                                           expected=f.get("expected"), actual=f.get("actual"), seed=seed, tier=tier,
                                           other_failures=len(oracle_failures) - 1))
         violation = "VIOLATION property=%s replay=%s" % (pid, path)
-    elif corr_failures or proof_failures or build_error or extra_failures:
+    elif corr_failures or proof_failures or build_error or extra_failures or (tier == "thorough" and tie_lost_final(tie, js)):
         rec = dict(property=pid, kind="unproved", seed=seed, tier=tier)
         if build_error:
             rec["what"] = "the harness no longer builds against /repo (a public signature changed?): correspondence for %s cannot be established" % pid
@@ -2144,8 +2176,15 @@ def check_property(pid, tier, seed, do_lean=True, write_evidence=True):
         elif proof_failures:
             rec["what"] = "proof obligations of SF.Props.%s do not check" % pid
             rec["detail"] = proof_failures
-        else:
+        elif extra_failures:
             rec["what"] = extra_failures[0]
+        else:
+            lost = tie_lost_final(tie, js)
+            rec["what"] = ("translator tie: the Rust text of %s is no longer proved equal to the Lean model (theorems %s no longer check); "
+                           "the sampled correspondence held and the search found no failing input, so the theorems of SF.Props.%s "
+                           "apply to this code only as far as the sampled correspondence shows (thorough tier reports this; the quick tier records it)"
+                           % (", ".join(lost), ", ".join("SF.GenEq.%s.tie" % v for v in lost), pid))
+            rec["detail"] = {v: (tie.get("broken", {}).get(v) or tie.get("untranslatable", {}).get(v)) for v in lost}
         path = core.save_replay(pid, rec)
         violation = "VIOLATION property=%s replay=%s no-failing-input-found" % (pid, path)
     wall = time.time() - t0
@@ -2178,6 +2217,24 @@ def check_property(pid, tier, seed, do_lean=True, write_evidence=True):
                                     rule="every stream of length 6 (8 in the thorough tier; 5 / 6 for the transcendental recursive filters of C11) over a three-letter alphabet {0, 1, -2} ({1/2, 1, 3} for "
                                          "positive-domain views), window lengths 1, 2, 3, for each view that has a batch definition in this "
                                          "property: implementation in exact arithmetic vs the Lean spec"),
+        translator_tie=dict(
+            what="tools/rs2lean.py regenerated lean/SF/Gen/<View>.lean from the Rust text of the repository's working tree on this run; "
+                 "SF.GenEq.<View>.tie (kernel-checked) states that the generated view and the model's view give the same answers and "
+                 "the same panics on every input, for every child view",
+            views_proved_equal_to_the_model=sorted(tie.get("proved", [])), broken=tie.get("broken", {}), untranslatable=tie.get("untranslatable", {}),
+            end_to_end_theorems_for_this_property=dict(
+                theorems=["SF.GenEq." + n for n in (tie.get("transfer") or {}).get(pid, [])],
+                meaning="Realises (the view generated from the Rust text, over Echo) (the batch definition the property names): fed any history, "
+                        "the translated Rust text does not panic and reports the definition's value -- the model's characterisation theorem "
+                        "carried over along SF.GenEq.<View>.sim (real arithmetic); axioms audited",
+                skipped=tie.get("transfer_skipped") or tie.get("transfer_error")),
+            generated_files_that_changed_on_this_run=tie.get("changed", []), skipped=tie.get("skipped"), axioms_of_the_tie_theorems=tie.get("axioms"),
+            views_of_this_check_whose_tie_is_lost=tie_lost_final(tie, js), wall_s=tie.get("wall_s"), checker_cmd=tie.get("checker_cmd"),
+            views_not_covered_by_the_translator="HLNormalizer, CenterOfGravity, CorrelationTrendIndicator, NoiseEliminationTechnology, "
+                                                "CyberCycle, LaguerreFilter, LaguerreRSI, TrendFlex, ReFlex, PolarizedFractalEfficiency, "
+                                                "EhlersFisherTransform (loops / iterator chains / index-heavy ladders): tied by the differential correspondence only",
+            policy="quick tier: a lost tie widens the search for a failing input and is recorded here; it is reported as a violation "
+                   "(no-failing-input-found) only in the thorough tier, or when the sampled correspondence breaks as well"),
         search_for_failing_input=search or "not needed: /repo/src equals the sources recorded in source_hashes.json and the correspondence held",
         explanation="proof obligations: theorems of SF/Props/%s.lean audited with #print axioms; tie: Rust harness on /repo's working tree vs Lean model (f64 and exact Q) and vs batch specs; relations evaluated on the implementation in exact arithmetic" % pid,
     )
